@@ -151,7 +151,8 @@ Inductive category :=
 | Protocol        (* part of checkRaw itself: runs after loadt observed non-raw, or after this goroutine's own parseRaw
                      (modelled as V0 in Conc/NodeLock.v) *)
 | DeadBranch      (* parseRaw(full = true) has no call site: checkRaw passes false *)
-| NoMutex         (* the branch of parseRaw taken when self.m == nil: the node was not made concurrently readable *)
+| NoMutex         (* the branches of parseRaw taken when self.m == nil (`lock` false): the node was not made concurrently
+                     readable; since 30f25f0 the error path of a lockable node goes through assign *)
 | KnownFinding (id : string).
 
 Definition justification : list (viol * category) :=
@@ -171,9 +172,7 @@ Definition justification : list (viol * category) :=
     (("Node.checkFast", ("t", ("read", 0)), "Node.checkRaw"), Protocol);
     (("Node.parseRaw", ("*", ("write", 0)), "Node.checkRaw"), DeadBranch);
     (("Node.parseRaw", ("*", ("write", 1)), "Node.checkRaw"), NoMutex);
-    (("Node.parseRaw", ("*", ("write", 2)), "Node.checkRaw"), KnownFinding "KF-C16-parse-error-deadlock");
-    (("Node.toString", ("p", ("read", 0)), "Node.MarshalJSON"), KnownFinding "KF-C16-marshal-fastpath");
-    (("Node.toString", ("l", ("read", 0)), "Node.MarshalJSON"), KnownFinding "KF-C16-marshal-fastpath") ].
+    (("Node.parseRaw", ("*", ("write", 2)), "Node.checkRaw"), NoMutex) ].
 
 Definition justified (v : viol) : bool := existsb (fun j => viol_eqb v (fst j)) justification.
 
@@ -262,8 +261,17 @@ Definition accessors_shape : bool :=
    | _ => false end) &&
   (match events_of "Node.should" with Call "Node.checkRaw" 0 _ _ _ :: _ => true | _ => false end).
 
+(* MarshalJSON (fca300b): the fast path re-checks and reads the text under rlock, then leaves through runlock *)
+Definition marshal_shape : bool :=
+  match events_of "Node.MarshalJSON" with
+  | [Call "Node.isRaw" 0 Plain _ _; Call "Node.rlock" 0 Plain _ _; Call "Node.isRaw" 0 UnderRLock _ _;
+     Call "Node.toString" 0 UnderRLock _ _; Call "Node.runlock" 0 UnderRLock _ _; Call "Node.runlock" 0 UnderRLock _ _;
+     Call "Node.encode" 0 Plain true _] => true
+  | _ => false
+  end.
+
 Definition shapes_ok : bool :=
-  assign_shape && parseRaw_shape && rlock_shape "Node.Raw" "Node.MarshalJSON" && rlock_shape "Node.encodeRaw" "Node.encode" &&
+  marshal_shape && assign_shape && parseRaw_shape && rlock_shape "Node.Raw" "Node.MarshalJSON" && rlock_shape "Node.encodeRaw" "Node.encode" &&
   accessors_shape.
 
 (* ------------------------------------------------------------------ theorems *)
@@ -315,8 +323,8 @@ Definition known_findings_of (v : viol) : option string :=
 Definition unjustified : list (viol * string) :=
   flat_map (fun v => match known_findings_of v with Some id => [(v, id)] | None => [] end) violations.
 
-Theorem lockset_unjustified_subset :
-  forallb (fun x => String.eqb (snd x) "KF-C16-marshal-fastpath" || String.eqb (snd x) "KF-C16-parse-error-deadlock") unjustified = true.
+(* since fca300b / 30f25f0 no access is left to a known finding *)
+Theorem lockset_unjustified_subset : unjustified = [].
 Proof. vm_compute. reflexivity. Qed.
 
 (* The two defect sites, recognised on the regenerated table.  While a site has its defective shape, the corresponding
@@ -325,8 +333,9 @@ Proof. vm_compute. reflexivity. Qed.
 Definition marshal_fastpath_unlocked : bool :=
   existsb (fun e => match e with Call "Node.toString" 0 Plain false _ => true | _ => false end) (events_of "Node.MarshalJSON").
 
+(* repaired shape (30f25f0): the error node of a lockable node is published by a second call of assign *)
 Definition parse_error_plain_overwrite : bool :=
-  Nat.leb 3 (List.length (filter (fun e => match e with Acc "*" Wr 0 _ _ _ => true | _ => false end) (events_of "Node.parseRaw"))).
+  Nat.ltb (List.length (filter (fun e => match e with Call "Node.assign" 0 UnderLock _ _ => true | _ => false end) (events_of "Node.parseRaw"))) 2.
 
 Lemma vmem_In' : forall v l, vmem v l = true -> In v l.
 Proof.
@@ -346,15 +355,9 @@ Proof.
   split; apply vmem_In'; assumption.
 Qed.
 
-Theorem lockset_parse_error_refuted :
-  parse_error_plain_overwrite = true ->
-  In (("Node.parseRaw", ("*", ("write", 2)), "Node.checkRaw")) violations.
-Proof.
-  assert (H : implb parse_error_plain_overwrite
-                (vmem (("Node.parseRaw", ("*", ("write", 2)), "Node.checkRaw")) violations) = true)
-    by (vm_compute; reflexivity).
-  intro E. rewrite E in H. cbn [implb] in H. apply vmem_In'. assumption.
-Qed.
+(* both repaired shapes are present in the regenerated table *)
+Theorem lockset_defect_sites_repaired : marshal_fastpath_unlocked = false /\ parse_error_plain_overwrite = false.
+Proof. vm_compute. split; reflexivity. Qed.
 
 (* the hypotheses hold on the tree this file was written against (non-vacuity; remove when the defects are repaired) *)
 Definition defect_sites_present : bool * bool := (marshal_fastpath_unlocked, parse_error_plain_overwrite).
